@@ -510,6 +510,31 @@ pub fn gen_c12(rng: &mut Rng, thorough: bool) -> Vec<Tagged> {
             out.push(("predict-vs-forward".into(), Case::Net(spec, NetCmd::Forward(data[0].0.clone()))));
         }
     }
+    // networks with skip connections: predict / predict_batch / validate must honour them like forward
+    for r in 0..(if thorough { 60 } else { 10 }) {
+        let nw = rng.range(2, 5);
+        let depth = rng.range(3, 5);
+        let mut spec = NetSpec::new(Sh::Flat(nw).to_shape());
+        let mut ws = vec![];
+        for _ in 0..depth {
+            let d = Simple::Dense { out: nw, act: *rng.pick(&[Act::Tanh, Act::Sigmoid, Act::Linear, Act::Leaky]), bias: rng.coin(), dropout: None };
+            ws.push(LW::One(rand_w(rng, &d, Sh::Flat(nw), 2)));
+            spec.layers.push(LayerSpec::One(d));
+        }
+        spec.weights = Some(ws);
+        let b = rng.range(1, depth - 1);
+        spec.connect = vec![(rng.below(b + 1), b)];
+        spec.skipacc = *rng.pick(&ALL_ACCS);
+        if r % 3 == 0 {
+            spec.loops = vec![(depth - 1, depth - 1, 1, false)];
+        }
+        let nd = *rng.pick(&[1usize, 3, 65]);
+        let data = rand_data(rng, nd, Sh::Flat(nw), Sh::Flat(nw), Obj::MSE);
+        out.push(("validate-skipnet".into(), Case::Net(spec.clone(), NetCmd::Validate { data: data.clone(), tol: 0.1, pre_training: false })));
+        out.push(("predict-batch-skipnet".into(), Case::Net(spec.clone(), NetCmd::PredictBatch(data.iter().map(|d| d.0.clone()).collect()))));
+        out.push(("predict-skipnet".into(), Case::Net(spec.clone(), NetCmd::Predict(data[0].0.clone()))));
+        out.push(("forward-skipnet".into(), Case::Net(spec, NetCmd::Forward(data[0].0.clone()))));
+    }
     // a network not ending in a dense layer is refused by validate
     let mut spec = NetSpec::new(Sh::Sp(1, 3, 3).to_shape());
     spec.layers.push(LayerSpec::One(Simple::Maxpool { kernel: (1, 1), stride: (1, 1) }));
@@ -556,7 +581,15 @@ pub fn fals_c05(rng: &mut Rng, thorough: bool) -> crate::fals::Fals {
     while built < nets && tries < 200 {
         tries += 1;
         let spatial = built % 2 == 0;
-        let (mut spec, input, outsh) = match train_net(rng, &o, spatial, false) { Some(x) => x, None => continue };
+        let (mut spec, input, outsh) = if built % 4 == 3 {
+            // a feedback block with input skips and three or more loops (gradient additions from several skip targets)
+            let mut ob = o.clone();
+            ob.dropout = false;
+            let bl = rng.range(3, 4);
+            match block_net(rng, &ob, false, bl, true, false, Acc::Add, true) { Some(x) => x, None => continue }
+        } else {
+            match train_net(rng, &o, spatial, false) { Some(x) => x, None => continue }
+        };
         spec.opt = rand_opt(rng, built % 5);
         spec.obj = Obj::MSE;
         let nd = rng.range(5, 11);
@@ -589,7 +622,7 @@ pub fn fals_c05(rng: &mut Rng, thorough: bool) -> crate::fals::Fals {
                         None => reference = Some((k, rep, out)),
                         Some((k0, r0, o0)) => {
                             let same = *o0 == out;
-                            f.check(&format!("schedule/{}", name), same, "result differs between thread counts / repetitions", || {
+                            f.check(&format!("schedule/{}{}", name, if built % 4 == 0 { "/feedback-inskips-L>=3" } else { "" }), same, "result differs between thread counts / repetitions", || {
                                 let pos = o0.iter().zip(out.iter()).position(|(a, b)| a != b).unwrap_or(0);
                                 format!("{} on network {:?} ({} training samples, {} evaluation inputs): {} threads (repetition {}) vs {} threads (repetition {}): first difference at result token {} ({} vs {})",
                                         name, spec.layers.iter().map(|l| l.kind()).collect::<Vec<_>>(), nd, nv, k0, r0, k, rep, pos, o0.get(pos).cloned().unwrap_or(0), out.get(pos).cloned().unwrap_or(0))
